@@ -27,6 +27,9 @@ type ig struct {
 	dics []string
 	// mutable spellings of an array-like expression (e.g. `arr` can also be mutated through `ref`)
 	alias map[string][]string
+	// helper functions (closures / methods) that iterate a container themselves and leave the loop by
+	// `return`: call expressions of type Int with one Int argument, e.g. "find(%s)"
+	finders []string
 }
 
 func (x *ig) v(p string) string {
@@ -299,6 +302,9 @@ func (x *ig) stmt(f iframe, d int) bool {
 	case c == 13 && len(f.inside) > 0:
 		x.form("early-return")
 		x.line(f.ind, "if cnt == "+strconv.Itoa(2+r.Intn(6))+" { return "+f.ret+" }")
+	case (c == 15 || c == 16) && len(x.finders) > 0:
+		x.form("call-finder")
+		x.line(f.ind, "acc = acc + "+strings.Replace(x.finders[r.Intn(len(x.finders))], "%s", x.val(f), 1))
 	case c == 14:
 		x.form("reassign")
 		// assigning the variable replaces its value; an iteration in progress keeps the old container
@@ -325,6 +331,30 @@ func (x *ig) nestedSame(f iframe, c string) {
 			x.mutationStmt(o, c)
 			x.form("mut-before-inner")
 		}
+		if len(x.finders) > 0 && !x.isDic(c) && r.Chance(25) {
+			// the inner iteration runs in a helper and ends by `return` from inside the loop
+			x.form("call-finder")
+			x.line(o.ind, "acc = acc + "+strings.Replace(x.finders[0], "%s", x.val(o), 1))
+		} else {
+			x.innerIteration(o, c)
+		}
+		if r.Chance(85) {
+			x.form("mut-after-inner")
+			x.mutationStmt(o, c)
+		}
+		if r.Chance(40) {
+			x.filler(o)
+		}
+	})
+	if r.Chance(50) {
+		x.form("mut-after-outer")
+		x.mutationStmt(f, c)
+	}
+}
+
+func (x *ig) innerIteration(o iframe, c string) {
+	r := x.r
+	{
 		x.iteration(o, c, func(i iframe) {
 			if r.Chance(70) {
 				x.filler(i)
@@ -343,17 +373,6 @@ func (x *ig) nestedSame(f iframe, c string) {
 				x.line(i.ind, "if cnt == "+strconv.Itoa(3+r.Intn(9))+" { return "+i.ret+" }")
 			}
 		})
-		if r.Chance(85) {
-			x.form("mut-after-inner")
-			x.mutationStmt(o, c)
-		}
-		if r.Chance(40) {
-			x.filler(o)
-		}
-	})
-	if r.Chance(50) {
-		x.form("mut-after-outer")
-		x.mutationStmt(f, c)
 	}
 }
 
@@ -373,6 +392,12 @@ func GenerateIter(r *hx.Rng) *Prog {
 		x.form("iter-method")
 		x.arrs, x.dics = []string{"self.a"}, []string{"self.d"}
 		x.alias = map[string][]string{}
+		// `find` leaves its loop over self.a by `return`
+		x.line(1, "access(all) fun find(_ k: Int): Int {")
+		x.line(2, "for e in self.a { if e >= k { return e } }")
+		x.line(2, "return 0 - 1")
+		x.line(1, "}")
+		x.finders = []string{"self.find(%s)"}
 		x.line(1, "access(all) fun walk(_ start: Int): Int {")
 		x.line(2, "var cnt = start")
 		x.line(2, "var acc = 0")
@@ -404,6 +429,16 @@ func GenerateIter(r *hx.Rng) *Prog {
 		x.line(1, "var cnt = 0")
 		x.line(1, "var acc = 0")
 		x.line(1, "let ref = &arr as auth(Mutate) &[Int]")
+		// helpers that iterate `arr` themselves and leave the loop by `return`
+		x.line(1, "let find = fun (_ k: Int): Int {")
+		x.line(2, "for e in arr { if e >= k { return e } }")
+		x.line(2, "return 0 - 1")
+		x.line(1, "}")
+		x.line(1, "fun findRef(_ k: Int): Int {")
+		x.line(2, "for i, e in ref { if e == k { return i } }")
+		x.line(2, "return 0 - 1")
+		x.line(1, "}")
+		x.finders = []string{"find(%s)", "findRef(%s)"}
 		f := iframe{ind: 1, ret: "acc"}
 		x.body(f)
 		x.line(1, "log(arr); log(arr2); log(dic.length); log(dic[1]); log(dic[2]); log(dic[5]); log(cnt); log(acc)")
